@@ -132,14 +132,6 @@ Proof. vm_compute. reflexivity. Qed.
 (** decoding is live on the canonical serialisation: a request consisting of the root with ID, Version, IssueInstant,
     Destination and ProtocolBinding attributes (in any name-space-prefix spelling: names arrive resolved) and an Issuer child,
     with any values, decodes to the record holding exactly those values *)
-Lemma canonical_document_decodes_aux id ver instant dest binding issuer :
-  let p := b "urn:oasis:names:tc:SAML:2.0:protocol" in let a := b "urn:oasis:names:tc:SAML:2.0:assertion" in
-  authn_of_doc false (RElem p (b "AuthnRequest")
-     [(b "xmlns", b "samlp", p); (b "xmlns", b "saml", a); ([], b "ID", id); ([], b "Version", ver); ([], b "IssueInstant", instant);
-      ([], b "Destination", dest); ([], b "ProtocolBinding", binding)]
-     [RElem a (b "Issuer") [] [RText issuer]])
-  = Some {| a_id := id; a_version := ver; a_destination := dest; a_binding := binding; a_issuer := Some (issuer ++ [])%list; a_conditions := None; a_signature := None |}.
-Proof. vm_compute. reflexivity. Qed.
 Theorem canonical_document_decodes id ver instant dest binding issuer :
   let p := b "urn:oasis:names:tc:SAML:2.0:protocol" in let a := b "urn:oasis:names:tc:SAML:2.0:assertion" in
   authn_of_doc false (RElem p (b "AuthnRequest")
@@ -147,4 +139,4 @@ Theorem canonical_document_decodes id ver instant dest binding issuer :
       ([], b "Destination", dest); ([], b "ProtocolBinding", binding)]
      [RElem a (b "Issuer") [] [RText issuer]])
   = Some {| a_id := id; a_version := ver; a_destination := dest; a_binding := binding; a_issuer := Some issuer; a_conditions := None; a_signature := None |}.
-Proof. intros p a. pose proof (canonical_document_decodes_aux id ver instant dest binding issuer) as H. cbv zeta in H. rewrite app_nil_r in H. exact H. Qed.
+Proof. vm_compute. reflexivity. Qed.
